@@ -22,17 +22,19 @@ VARIABLES i, bad
 vars == <<i, bad>>
 V(o, cl, k) == [id |-> o.id, clause |-> cl, k |-> k]
 
-(* is a crossing with the given sense compatible with the requested direction? *)
+(* Is a crossing with the given sense compatible with the requested direction?  "rising" is measured ALONG THE RUN (g goes from  *)
+(* negative at the end of the step the integration comes from to positive at the end it goes to).  On backward runs this is the    *)
+(* reading of the pinned library and of scipy.integrate.solve_ivp, whose event code it adapts and whose drop-in replacement its      *)
+(* facade claims to be (active events are classified from g at the old end and g at the new end of the step).  An earlier version     *)
+(* of this judge accepted either reading on backward runs; a seeded change that flips the reading showed that this was too weak.     *)
 Compat(dirn, rising, fwd) ==
     \/ dirn = 0
-    \/ (dirn > 0) = rising                         \* along the direction of integration
-    \/ (~fwd /\ ((dirn > 0) = ~rising))            \* backward run, read along increasing time
+    \/ (dirn > 0) = rising
 
-(* must a crossing be reported under every admissible reading? *)
+(* must a crossing be reported? *)
 MustReport(dirn, rising, fwd) ==
     \/ dirn = 0
-    \/ (fwd /\ ((dirn > 0) = rising))
-    \/ (~fwd /\ FALSE)                             \* with a requested direction a backward crossing is never demanded
+    \/ (dirn > 0) = rising
 
 Matches(t) == Cardinality({j \in 1..Len(t.gaps) : t.gaps[j] <= EventRootGapUnits})
 
